@@ -56,7 +56,7 @@ def requirements(tier):
         return {'resolver_queries': 500000, 'ref_float': 5000, 'ref_bool': 6,
                 'e2e_loads': 20000, 'near_miss_e2e': 3000,
                 'bucket_tTfF': 4, 'bucket_number': 10}
-    return {'resolver_queries': 5000000, 'ref_float': 50000, 'ref_bool': 6,
+    return {'resolver_queries': 5000000, 'ref_float': 35000, 'ref_bool': 6,
             'e2e_loads': 100000, 'near_miss_e2e': 10000,
             'bucket_tTfF': 4, 'bucket_number': 10}
 
